@@ -470,6 +470,7 @@ fn main() {
     report.floor("trace.batch:put:substates", 40);
     report.floor("trace.batch:put:stale_merkle_tree_parts", 25);
     report.floor("trace.direct:delete:merkle_nodes", 100);
+    report.floor("pruned_node_versions_checked", 100);
     report.floor("crash_points_after_first_write", 100);
     report.floor("cases_commit_panicked_in_tree_computation", 2);
     let mut cw = CaseWriter::new("RV.Lib.Bytes RV.Model.C14_Store RV.Model.C19_CrashCommit RV.Corr.C19_run", "check");
@@ -588,6 +589,15 @@ fn main() {
         if !sample_trace_done && n >= 3 {
             sample_trace_done = true;
             report.sample(json!({"case": i, "pruning": pruning, "trace_tags": trace.iter().map(|t| t.0.clone()).collect::<Vec<_>>()}));
+        }
+        // side condition of the composed theorem (C19_composed_crash_safe): the pruning loop deletes only
+        // nodes of versions older than the one being committed (key = 8-byte big-endian version ++ path)
+        for t in trace.iter().filter(|t| t.0 == "direct:delete:merkle_nodes") {
+            let v = u64::from_be_bytes(t.1[..8].try_into().unwrap());
+            report.count("pruned_node_versions_checked");
+            if v >= post.version {
+                report.oracle_failure(i, "", &format!("the pruning loop deleted node {} of version {} while committing version {}", hex(&t.1), v, post.version), input.clone());
+            }
         }
         let changes = db_post != db;
         report.case(&canon, changes && !db.is_empty());
